@@ -1982,6 +1982,12 @@ func c05ReachF(fromB *ssa.BasicBlock, fromIdx int, fromPred *ssa.BasicBlock, to 
 					continue
 				}
 				if kind == "bool" {
+					// the selected operand is a negation: what is known about the negated value decides
+					if rv, rp := c05StripNot(res); !rp {
+						if have, known := m[rv]; known && have != !want {
+							continue
+						}
+					}
 					if k, isK := res.(*ssa.Const); isK && k.Value != nil && (k.Value.String() == "true") != want {
 						continue
 					}
@@ -2004,6 +2010,9 @@ func c05ReachF(fromB *ssa.BasicBlock, fromIdx int, fromPred *ssa.BasicBlock, to 
 					nf.isNil[subj], nf.isNil[res] = want, want
 				} else {
 					nf.isTrue[subj], nf.isTrue[res] = want, want
+					if rv, rp := c05StripNot(res); !rp {
+						nf.isTrue[rv] = !want
+					}
 				}
 			}
 			if s.Dominates(b) {
@@ -2497,7 +2506,7 @@ func (it *c05Iter) IsElem(v ssa.Value, at *c05Env, role string) bool {
 				return false
 			}
 			ia, ok := ld.X.(*ssa.IndexAddr)
-			if !ok || !b.idx[ia.Index] || !(SameValue(ia.X, b.slice) || c05SamePlace(ia.X, b.slice)) {
+			if !ok || !b.idx[ia.Index] || !(ia.X == b.slice || SameValue(ia.X, b.slice) || c05SamePlace(ia.X, b.slice)) {
 				return false
 			}
 		}
